@@ -1989,13 +1989,20 @@ output(std::ostream &out, int indent_level, CPPScope *scope, bool) const {
       break;
 
     case UNARY_MINUS:
-      out << '-';
-      _u._op._op1->output(out, indent_level, scope, false);
-      break;
-
     case UNARY_PLUS:
-      out << '+';
-      _u._op._op1->output(out, indent_level, scope, false);
+      {
+        // Keep the sign apart from an operand that begins with the same sign,
+        // or -(-1) would be written as the decrement --1.
+        char sign = (_u._op._operator == UNARY_MINUS) ? '-' : '+';
+        std::ostringstream operand;
+        _u._op._op1->output(operand, indent_level, scope, false);
+        std::string operand_str = operand.str();
+        out << sign;
+        if (!operand_str.empty() && operand_str[0] == sign) {
+          out << ' ';
+        }
+        out << operand_str;
+      }
       break;
 
     case UNARY_STAR:
